@@ -185,7 +185,7 @@ type IQResultRoute struct {
 func NewIQResultRoute(ctx context.Context) *IQResultRoute {
 	return &IQResultRoute{
 		context: ctx,
-		result:  make(chan stanza.IQ),
+		result:  make(chan stanza.IQ, 1),
 	}
 }
 
